@@ -317,3 +317,7 @@ ENTRIES["C02"]["note"] = ("All four clauses (completeness, same size, twin closu
 
 ENTRIES["C14"]["text"] += (" After the repair of D23 the skip list is the set of links before the tweaked joint whose pose is unchanged (model `skipOf`, the unchanged-link "
     "verdicts are reported by the harness from forward_with_joint_poses); offsets_exact is proved for that list, so it also covers kinematics with coupled joints.")
+
+ENTRIES["C10"]["text"] += (" Props/C10b ([R]): the geometric fact behind the pre-filter hypothesis -- if two bodies contained in their bounding boxes have two points within r, "
+    "the box of either body loosened by r intersects the box of the other (prefilter_conservative, prefilter_conservative_sets, rejected_imp_far). Props/TieColl: the "
+    "per-pair decision of the model is CollisionTask::collides as translated from the current source.")
